@@ -1,3 +1,4 @@
+import Mathlib.Data.List.Nodup
 import PolyVerif.Lemmas.NcbiTables
 import PolyVerif.Model.CodonOptimize
 /-
@@ -435,5 +436,217 @@ theorem partition_nonempty {t : Table} (hp : Partition t) : emptyTable t = false
   cases ha : t.aminoAcids with
   | nil => simp [triplets, ha] at h
   | cons a as => simp [emptyTable, ha]
+
+end PolyVerif.CodonOptimize
+
+namespace PolyVerif.CodonOptimize
+open PolyVerif PolyVerif.Codon PolyVerif.CodonTranslate
+
+/-! ### the set of possible outputs -/
+
+theorem mapGet_map {β γ : Type} (f : β → γ) : ∀ (m : List (Str × β)) (k : Str),
+    mapGet (m.map fun e => (e.1, f e.2)) k = (mapGet m k).map f
+  | [], _ => rfl
+  | (k', v) :: rest, k => by
+    simp only [List.map_cons, mapGet, mapGet_map f rest k]
+    cases mapGet rest k with
+    | some x => rfl
+    | none =>
+      simp only [Option.map_none]
+      split <;> rfl
+
+theorem chooserMap_eq_map (sorter : List Choice → List Choice) (t : Table) :
+    chooserMap sorter t = (choiceMap t).map fun e => (e.1, newChooser sorter e.2) := by
+  simp only [chooserMap, choiceMap, List.map_filterMap]
+  congr 1
+  funext a
+  split <;> rfl
+
+theorem chooserMap_get (sorter : List Choice → List Choice) (t : Table) (k : Str) :
+    mapGet (chooserMap sorter t) k = (mapGet (choiceMap t) k).map (newChooser sorter) := by
+  rw [chooserMap_eq_map, mapGet_map]
+
+theorem choiceMap_get {t : Table} {k : Str} {l : List Choice} (h : mapGet (choiceMap t) k = some l) :
+    ∃ a ∈ t.aminoAcids, a.letter = k ∧ l = choices a := by
+  have := mapGet_some_mem _ _ _ h
+  simp only [choiceMap, List.mem_filterMap] at this
+  obtain ⟨a, ha, hs⟩ := this
+  split at hs
+  · simp only [Option.some.injEq, Prod.mk.injEq] at hs
+    exact ⟨a, ha, hs.1, hs.2.symm⟩
+  · cases hs
+
+theorem choices_triplet_nodup {t : Table} (hp : Partition t) {a : AminoAcid} (ha : a ∈ t.aminoAcids) :
+    (a.codons.map (·.triplet)).Nodup := by
+  have h := hp.1
+  simp only [triplets] at h
+  exact (List.nodup_flatMap.1 h).1 a ha
+
+theorem choices_nodup {t : Table} (hp : Partition t) {a : AminoAcid} (ha : a ∈ t.aminoAcids) : (choices a).Nodup := by
+  have : ((choices a).map (·.item)).Nodup := by
+    simp only [choices, List.map_map]
+    exact (List.Sublist.map _ List.filter_sublist).nodup (choices_triplet_nodup hp ha)
+  exact List.Nodup.of_map _ this
+
+theorem choices_item_mem {t : Table} (hp : Partition t) {a : AminoAcid} (ha : a ∈ t.aminoAcids) {ch : Choice}
+    (h : ch ∈ choices a) : ch.item ∈ all64 := by
+  simp only [choices, List.mem_map, List.mem_filter] at h
+  obtain ⟨c, ⟨hc, _⟩, rfl⟩ := h
+  apply hp.2.1
+  simp only [triplets, List.mem_flatMap, List.mem_map]
+  exact ⟨a, ha, c, hc, rfl⟩
+
+/-- every choice of positive weight is selected by some in-range draw -/
+theorem exists_draw (d : List Choice) (hw : ∀ c ∈ d, 0 ≤ c.weight) (hnd : d.Nodup) {c : Choice} (hc : c ∈ d)
+    (hpos : 0 < c.weight) : ∃ r : Nat, 1 ≤ r ∧ (r : Int) ≤ sumW d ∧ linPick d (r : Int) = some c := by
+  have hcount := linPick_count d hw hnd c
+  simp only [hc, if_true] at hcount
+  have : 0 < (List.range' 1 (sumW d).toNat).countP fun (r : Nat) => decide (linPick d (r : Int) = some c) := by
+    rw [hcount]; omega
+  obtain ⟨r, hr, hp⟩ := List.countP_pos_iff.1 this
+  have := List.mem_range'_1.1 hr
+  have hS := sumW_nonneg d hw
+  exact ⟨r, this.1, by omega, of_decide_eq_true hp⟩
+
+/-- a pick on an in-range draw is the linear scan -/
+theorem pick_eq_linPick (sorter : List Choice → List Choice) (cs : List Choice) (hw : ∀ c ∈ sorter cs, 0 ≤ c.weight)
+    {r : Nat} (h1 : 1 ≤ r) (h2 : (r : Int) ≤ (newChooser sorter cs).max) :
+    pick (newChooser sorter cs) r =
+      match linPick (sorter cs) (r : Int) with
+      | some c => .ok c.item
+      | none => .panic := by
+  have hpos : ¬ (newChooser sorter cs).max ≤ 0 := by omega
+  have hs : (newChooser sorter cs).data[searchInts (newChooser sorter cs).totals (r : Int)]? = linPick (sorter cs) r :=
+    search_eq_linPick (sorter cs) hw r
+  simp only [pick, hpos, if_false, hs]
+  cases linPick (sorter cs) (r : Int) <;> rfl
+
+/-- position by position, the codon is an item of positive weight of the choices stored under the residue -/
+def PosOK (M : List (Str × List Choice)) : Str → List Str → Prop
+  | [], [] => True
+  | aa :: p, c :: cs => (∃ l, mapGet M [aa] = some l ∧ ∃ ch ∈ l, ch.item = c ∧ 0 < ch.weight) ∧ PosOK M p cs
+  | _, _ => False
+
+theorem memberLoop_iff (M : List (Str × List Choice)) : ∀ (p : Str) (cs : List Str),
+    memberLoop M p cs = true ↔ PosOK M p cs
+  | [], [] => by simp [memberLoop, PosOK]
+  | [], _ :: _ => by simp [memberLoop, PosOK]
+  | _ :: _, [] => by simp [memberLoop, PosOK]
+  | aa :: p, c :: cs => by
+    simp only [memberLoop, PosOK, Bool.and_eq_true, memberLoop_iff M p cs]
+    apply and_congr_left'
+    cases mapGet M [aa] with
+    | none => simp
+    | some l => simp [List.any_eq_true]
+
+theorem posOK_length (M : List (Str × List Choice)) : ∀ (p : Str) (cs : List Str), PosOK M p cs → cs.length = p.length
+  | [], [], _ => rfl
+  | [], _ :: _, h => by cases h
+  | _ :: _, [], h => by cases h
+  | _ :: p, _ :: cs, h => by simp [posOK_length M p cs h.2]
+
+section
+variable {sorter : List Choice → List Choice} (hperm : ∀ l, (sorter l).Perm l) {t : Table} (hwf : WF t)
+include hperm hwf
+
+theorem sorted_choices_facts {a : AminoAcid} (ha : a ∈ t.aminoAcids) :
+    (∀ c ∈ sorter (choices a), 0 < c.weight) ∧ (sorter (choices a)).Nodup := by
+  refine ⟨?_, ((hperm _).nodup_iff).2 (choices_nodup hwf.1 ha)⟩
+  intro ch hch
+  obtain ⟨c, _, rfl, _, hpos⟩ := mem_choices (hwf.2 a ha) ((hperm _).mem_iff.1 hch)
+  exact hpos
+
+/-- every codon list that passes the membership test is produced by some in-range draws -/
+theorem loop_of_posOK : ∀ (p : Str) (cs : List Str) (acc : Str), PosOK (choiceMap t) p cs →
+    ∃ rs, DrawsOK (chooserMap sorter t) p rs ∧
+      optimizeLoop (chooserMap sorter t) p rs acc = some (.ok (acc ++ cs.flatten))
+  | [], [], acc, _ => ⟨[], trivial, by simp [optimizeLoop]⟩
+  | [], _ :: _, _, h => by cases h
+  | _ :: _, [], _, h => by cases h
+  | aa :: p, c :: cs, acc, h => by
+    obtain ⟨⟨l, hl, ch, hch, rfl, hpos⟩, hrest⟩ := h
+    obtain ⟨a, ha, _, rfl⟩ := choiceMap_get hl
+    obtain ⟨hw, hnd⟩ := sorted_choices_facts hperm hwf ha
+    have hw' : ∀ c ∈ sorter (choices a), 0 ≤ c.weight := fun c hc => Int.le_of_lt (hw c hc)
+    obtain ⟨r, h1, h2, hlin⟩ := exists_draw (sorter (choices a)) hw' hnd ((hperm _).mem_iff.2 hch) hpos
+    obtain ⟨rs, hd, hloop⟩ := loop_of_posOK p cs (acc ++ ch.item) hrest
+    have hget : mapGet (chooserMap sorter t) [aa] = some (newChooser sorter (choices a)) := by
+      rw [chooserMap_get, hl]; rfl
+    have hmax : (newChooser sorter (choices a)).max = sumW (sorter (choices a)) := rfl
+    have hpick := pick_eq_linPick sorter (choices a) hw' h1 (by rw [hmax]; exact h2)
+    rw [hlin] at hpick
+    refine ⟨r :: rs, ?_, ?_⟩
+    · simp only [DrawsOK, hget]
+      exact ⟨⟨h1, by rw [hmax]; exact h2⟩, hd⟩
+    · have hm : ¬ (newChooser sorter (choices a)).max ≤ 0 := by rw [hmax]; omega
+      simp only [optimizeLoop, hget, hm, if_false, hpick, hloop, List.flatten_cons, List.append_assoc]
+
+/-- and everything the loop can return passes the membership test -/
+theorem posOK_of_loop : ∀ (p : Str) (rs : List Nat) (acc out : Str), DrawsOK (chooserMap sorter t) p rs →
+    optimizeLoop (chooserMap sorter t) p rs acc = some (.ok out) →
+    ∃ cs, PosOK (choiceMap t) p cs ∧ out = acc ++ cs.flatten
+  | [], _, acc, out, _, h => by
+    simp only [optimizeLoop, Option.some.injEq, Outcome.ok.injEq] at h
+    exact ⟨[], trivial, by simp [h]⟩
+  | aa :: p, rs, acc, out, hd, h => by
+    rw [optimizeLoop] at h
+    cases hget : mapGet (chooserMap sorter t) [aa] with
+    | none => simp [hget] at h
+    | some chooser =>
+      have hget' := hget
+      rw [chooserMap_get] at hget'
+      cases hl : mapGet (choiceMap t) [aa] with
+      | none => simp [hl] at hget'
+      | some l =>
+        obtain ⟨a, ha, _, rfl⟩ := choiceMap_get hl
+        simp only [hl, Option.map_some, Option.some.injEq] at hget'
+        subst hget'
+        simp only [DrawsOK, hget] at hd
+        match rs, hd with
+        | r :: rs', ⟨⟨h1, h2⟩, hd'⟩ =>
+          obtain ⟨hw, _⟩ := sorted_choices_facts hperm hwf ha
+          have hw' : ∀ c ∈ sorter (choices a), 0 ≤ c.weight := fun c hc => Int.le_of_lt (hw c hc)
+          have hpick := pick_eq_linPick sorter (choices a) hw' h1 h2
+          have hm : ¬ (newChooser sorter (choices a)).max ≤ 0 := by omega
+          simp only [hget, hm, if_false] at h
+          cases hlin : linPick (sorter (choices a)) (r : Int) with
+          | none => simp [hpick, hlin] at h
+          | some ch =>
+            rw [hlin] at hpick
+            simp only [hpick] at h
+            obtain ⟨cs, hcs, hout⟩ := posOK_of_loop p rs' (acc ++ ch.item) out hd' h
+            have hmem := linPick_mem _ _ _ hlin
+            refine ⟨ch.item :: cs, ⟨⟨choices a, hl, ch, (hperm _).mem_iff.1 hmem, rfl, hw ch hmem⟩, hcs⟩, ?_⟩
+            simp [hout, List.append_assoc]
+
+end
+
+theorem posOK_items {t : Table} (hp : Partition t) : ∀ (p : Str) (cs : List Str), PosOK (choiceMap t) p cs →
+    ∀ c ∈ cs, c ∈ all64
+  | [], [], _, c, hc => by cases hc
+  | [], _ :: _, h, _, _ => by cases h
+  | _ :: _, [], h, _, _ => by cases h
+  | aa :: p, c :: cs, h, x, hx => by
+    obtain ⟨⟨l, hl, ch, hch, rfl, _⟩, hrest⟩ := h
+    obtain ⟨a, ha, _, rfl⟩ := choiceMap_get hl
+    rcases List.mem_cons.1 hx with rfl | hx
+    · exact choices_item_mem hp ha hch
+    · exact posOK_items hp p cs hrest x hx
+
+theorem flatten_chunks3 : ∀ (s : Str), s.length % 3 = 0 → (chunks3 s).flatten = s
+  | [], _ => rfl
+  | [_], h => by simp at h
+  | [_, _], h => by simp at h
+  | a :: b :: c :: rest, h => by
+    have : rest.length % 3 = 0 := by simp only [List.length_cons] at h; omega
+    simp [chunks3, flatten_chunks3 rest this]
+
+theorem flatten_length3 : ∀ (cs : List Str), (∀ c ∈ cs, c.length = 3) → cs.flatten.length = 3 * cs.length
+  | [], _ => rfl
+  | c :: cs, h => by
+    have := h c List.mem_cons_self
+    have := flatten_length3 cs (fun x hx => h x (List.mem_cons_of_mem _ hx))
+    simp only [List.flatten_cons, List.length_append, List.length_cons]
+    omega
 
 end PolyVerif.CodonOptimize
